@@ -30,7 +30,7 @@ impl Monitor for C15 {
     }
     fn plan(&self, tier: Tier) -> Vec<String> {
         let mut v: Vec<String> = (0..12).map(|i| format!("cat:{i}")).collect();
-        for i in 0..tier.pick(2500, 150_000) {
+        for i in 0..tier.pick(6000, 150_000) {
             v.push(format!("rnd:{i}"));
         }
         v
